@@ -529,6 +529,85 @@ def failed_op_retention_case(sink, seed, idx):  # noqa: C901
     sink.case(harness.fp('ret', name, at), True, ident if idx < 12 else None)
 
 
+def _snap_arg(x):
+    """Shallow snapshot of a constructor argument: type, container metadata, identity and order of keys and values."""
+    t = type(x)
+    if isinstance(x, dict):
+        return (t, getattr(x, 'default_factory', None), [(k if isinstance(k, (str, int)) else id(k), id(v)) for k, v in x.items()])
+    if isinstance(x, deque):
+        return (t, x.maxlen, [id(v) for v in x])
+    if isinstance(x, (list, tuple)):
+        return (t, [_snap_arg(v) if isinstance(v, (list, tuple, dict)) else id(v) for v in x])
+    return (t, id(x))
+
+
+def constructor_args_case(sink, seed, idx):  # noqa: C901
+    """The treespec constructors take containers of child treespecs: a RETAINED argument (exact dict / OrderedDict / defaultdict / list / deque /
+    pairs list, with and without keyword children, keyword names inside and outside the mapping) must come back untouched, and a second treespec
+    made from the same argument afterwards must equal the one made from a pristine copy."""
+    rng = gen.case_rng(seed, 'c14ctor', idx)
+    nil = rng.random() < 0.4
+    ns = rng.choice(U.NAMESPACES)
+    kwo = dict(none_is_leaf=nil, namespace=ns)
+    leaf = optree.treespec_leaf(none_is_leaf=nil)
+    pool = [leaf, optree.treespec_tuple([leaf, leaf], **kwo), optree.treespec_none(none_is_leaf=nil), optree.treespec_list([leaf], **kwo),
+            optree.treespec_dict({'k': leaf}, **kwo)]
+    n = rng.randrange(0, 5)
+    keys = rng.sample(['b', 'a', 'zz', 'c', 'x', 'y', 1, 2.5, None, ('t', 1)], n)
+    vals = [rng.choice(pool) for _ in range(n)]
+    pairs = list(zip(keys, vals))
+    str_keys = [k for k in keys if isinstance(k, str)]
+    kw_variants = [{}, {'kwonly': rng.choice(pool)}, {'kw1': rng.choice(pool), 'kw0': rng.choice(pool)}]
+    if str_keys:
+        kw_variants.append({str_keys[0]: rng.choice(pool), 'kw2': leaf})  # a keyword that overrides a key of the mapping
+    kws = rng.choice(kw_variants)
+    dq_maxlen = rng.choice((None, n, n + 3))
+    forms = [
+        ('treespec_dict/dict', lambda a: optree.treespec_dict(a, **kwo, **kws), lambda: dict(pairs)),
+        ('treespec_dict/OrderedDict', lambda a: optree.treespec_dict(a, **kwo, **kws), lambda: OrderedDict(pairs)),
+        ('treespec_dict/defaultdict', lambda a: optree.treespec_dict(a, **kwo, **kws), lambda: defaultdict(list, pairs)),
+        ('treespec_dict/pairs', lambda a: optree.treespec_dict(a, **kwo, **kws), lambda: [tuple(p_) for p_ in pairs]),
+        ('treespec_ordereddict/OrderedDict', lambda a: optree.treespec_ordereddict(a, **kwo, **kws), lambda: OrderedDict(pairs)),
+        ('treespec_ordereddict/dict', lambda a: optree.treespec_ordereddict(a, **kwo, **kws), lambda: dict(pairs)),
+        ('treespec_ordereddict/pairs', lambda a: optree.treespec_ordereddict(a, **kwo, **kws), lambda: [tuple(p_) for p_ in pairs]),
+        ('treespec_defaultdict/defaultdict', lambda a: optree.treespec_defaultdict(int, a, **kwo, **kws), lambda: defaultdict(list, pairs)),
+        ('treespec_defaultdict/dict', lambda a: optree.treespec_defaultdict(list, a, **kwo, **kws), lambda: dict(pairs)),
+        ('treespec_defaultdict/OrderedDict', lambda a: optree.treespec_defaultdict(None, a, **kwo, **kws), lambda: OrderedDict(pairs)),
+        ('treespec_tuple/list', lambda a: optree.treespec_tuple(a, **kwo), lambda: list(vals)),
+        ('treespec_tuple/tuple', lambda a: optree.treespec_tuple(a, **kwo), lambda: tuple(vals)),
+        ('treespec_list/list', lambda a: optree.treespec_list(a, **kwo), lambda: list(vals)),
+        ('treespec_list/deque', lambda a: optree.treespec_list(a, **kwo), lambda: deque(vals, maxlen=7)),
+        ('treespec_deque/deque', lambda a: optree.treespec_deque(a, maxlen=dq_maxlen, **kwo), lambda: deque(vals, maxlen=9)),
+        ('treespec_deque/list', lambda a: optree.treespec_deque(a, **kwo), lambda: list(vals)),
+        ('treespec_from_collection/dict', lambda a: optree.treespec_from_collection(a, **kwo), lambda: dict(pairs)),
+        ('treespec_from_collection/nested', lambda a: optree.treespec_from_collection(a, **kwo), lambda: [dict(pairs), (list(vals), OrderedDict(pairs)), deque(vals, maxlen=8)]),
+    ]
+    ident0 = dict(gen='c14ctor', seed=seed, index=idx, keys=repr(keys), keywords=sorted(kws), none_is_leaf=nil, namespace=ns)
+    for name, ctor, mk in forms:
+        arg, pristine = mk(), mk()
+        before = _snap_arg(arg)
+        try:
+            first = ctor(arg)
+            outcome = 'ok'
+        except Exception as e:  # noqa: BLE001
+            first, outcome = None, type(e).__name__
+        after = _snap_arg(arg)
+        ident = dict(ident0, call=name, outcome=outcome)
+        sink.check(after == before, f'ctor-args-unchanged/{name}' + ('/with-keywords' if kws and 'dict' in name.split('/')[0] else ''),
+                   'no operation mutates its inputs: a container of child treespecs given to a constructor is left as it was', ident, lambda: (before, after))
+        if first is not None:
+            try:
+                again, ref = ctor(arg), ctor(pristine)
+            except Exception as e:  # noqa: BLE001
+                sink.check(False, f'ctor-args-reused/{name}/raises', 'a constructor call repeated on the same argument gives the same treespec', ident, type(e).__name__)
+            else:
+                sink.check(obs(again) == obs(ref) == obs(first), f'ctor-args-reused/{name}', 'a constructor call repeated on the same argument gives the same treespec', ident,
+                           lambda: (repr(first)[:200], repr(again)[:200], repr(ref)[:200]))
+        sink.count('ctor-arg-probes')
+        sink.count(f'api:{outcome}')
+    sink.case(harness.fp('ctor', seed, idx), n >= 2, None)
+
+
 def run_shard(sink, tier, seed, shard):
     i0, step = (shard or {}).get('i', 0), (shard or {}).get('n', 1)
     for idx in range(i0, harness.scale(480, 12000, tier), step):
@@ -555,6 +634,8 @@ def run_shard(sink, tier, seed, shard):
         sink.guard('harness', 'inputs', dict(index=idx), lambda: inputs_case(sink, seed, idx))
     for idx in range(i0, n_cyc, step):
         sink.guard('harness', 'cycle', dict(index=idx), lambda: cycle_case(sink, seed, idx))
+    for idx in range(i0, harness.scale(400, 40000, tier), step):
+        sink.guard('harness', 'ctor-args', dict(index=idx), lambda: constructor_args_case(sink, seed, idx))
 
 
 def finalize(sink, tier, seed):
@@ -563,6 +644,7 @@ def finalize(sink, tier, seed):
     sink.require('retention-probes')
     sink.require('failed-op-retention-probes', 100)
     sink.require('cycle-probes')
+    sink.require('ctor-arg-probes', 1000)
     for r in CYCLE_ROUTES:
         sink.require(f'cycle-route:{r}')
     sink.require('api:ok', 100)
